@@ -404,3 +404,59 @@ def r_index_validation(cx):
                       "stack::new does not validate the indices given with `%s` by membership in a list" % key,
                       cx.where(g.d["span"]))
     cx.count("R-INDEX-VALIDATION", "validations", n)
+
+
+# ---------------------------------------------------------------------------------------------------------------------
+# R-TABLE-SCAN (C11): a look-up loop over a table looks at every entry
+
+@rule("R-TABLE-SCAN", ["C11"])
+def r_table_scan(cx):
+    """Where a unit name (or any key) is looked up by an index loop `for i in 0..table.len() - c` that reads only
+    `table[i]`, the last c entries can never be found. No loop over a constant table stops short of its end unless its
+    body also reads the entries beyond the index (table[i + c]). Iterator based scans (iter().find(..)) cover the table
+    by construction."""
+    n = 0
+    scans = 0
+    for name in sorted(cx.f.lib["fns"]):
+        if "::tests::" in name or not name.startswith(("inner_op::", "token::", "<T as token")):
+            continue
+        f = cx.f.fn(name)
+        for lp in f.loops():
+            x = pertuple.iterator_entry_value(f, lp)
+            if x is None or x[0] != "call" or not isinstance(x[1], str) or not x[1].endswith("into_iter"):
+                continue
+            r = mir.strip_refs(x[2][0])
+            if not (r[0] == "agg" and "Range" in str(r[1]) and len(r[2]) == 2):
+                continue
+            hi = mir.strip_refs(r[2][1])
+            scans += 1
+            if not (hi[0] == "bin" and hi[1] == "Sub" and hi[3][0] == "const" and isinstance(hi[3][2], int) and hi[3][2] > 0):
+                continue
+            ln = mir.strip_refs(hi[2])
+            if not (ln[0] == "call" and isinstance(ln[1], str) and ln[1].endswith("::len")):
+                continue
+            tab = mir.strip_refs(ln[2][0])
+            while tab[0] == "cast":
+                tab = mir.strip_refs(tab[2])
+            if not (tab[0] == "const" and isinstance(tab[2], tuple) and tab[2][0] == "path"):
+                continue       # a run-time vector: `0..v.len() - 1` with v[i + 1] is the usual pairwise loop
+            n += 1
+            c = hi[3][2]
+            # does the body read beyond the index?
+            beyond = False
+            for bb in sorted(lp.body):
+                t = f.term(bb)
+                if t["k"] == "assert" and t.get("msg") == "BoundsCheck":
+                    idx = f.operand(t["index"], f.end_point(bb))
+                    if idx[0] == "bin" and idx[1] in ("Add", "AddWithOverflow"):
+                        beyond = True
+                    if idx[0] == "proj" and idx[1][0] == "bin" and idx[1][1].startswith("Add"):
+                        beyond = True
+            cx.ob("R-TABLE-SCAN", "%s/%s" % (name, tab[2][1].rsplit("::", 1)[-1]), beyond,
+                  "the loop stops %d short of the end of %s but reads the entries beyond its index" % (c, tab[2][1]) if beyond
+                  else "%s scans the table %s with `for i in 0..len - %d` and reads only entry i: the last %d entr%s can "
+                       "never be found" % (name, tab[2][1], c, c, "y" if c == 1 else "ies"),
+                  cx.where(f.term(lp.header)["span"]))
+    cx.ob("R-TABLE-SCAN", "summary", True, "%d range loops examined: none scans a constant table short of its end" % scans,
+          nontrivial=scans > 0)
+    cx.count("R-TABLE-SCAN", "range_loops", scans)
